@@ -141,7 +141,7 @@ func genStep(r *plan.Rng, nctx, nshared, nregs int, sharedProb int, heavyOK bool
 // GenC18 builds the world and programs of one run (no schedule yet).
 func GenC18(seed, run uint64, tier, mode string) *plan.Plan {
 	r := plan.NewRng(plan.Derive(seed, run, 18))
-	p := &plan.Plan{V: 1, Property: "C18", Workload: "c18", Mode: mode, Seed: seed, Run: run, Race: true, Cold: mode == "cold" || mode == "coldsync"}
+	p := &plan.Plan{V: 1, Property: "C18", Workload: "c18", Mode: mode, Seed: seed, Run: run, Race: true, Cold: mode == "cold" || mode == "coldsync" || mode == "coldherd"}
 	maxPrec := uint32(20)
 	switch r.Intn(8) {
 	case 0:
@@ -269,10 +269,61 @@ func GenC18(seed, run uint64, tier, mode string) *plan.Plan {
 		}
 		p.Tasks = append(p.Tasks, tk)
 	}
+	if mode == "coldherd" {
+		firstUse(p, r, nshared)
+		return p
+	}
 	if k < 8 && r.Chance(1, 12) {
 		herd(p, k)
 	}
 	return p
+}
+
+// firstUse turns p into a first-use run (mode "coldherd", always executed in
+// a fresh process with the concurrent phase first): half of the shared
+// operands get an everyday shape (a few digits, exponent -3 … 18), the first
+// task's program is followed by one call of every read-only Decimal method and
+// of every Context method on shared operands, and three or four callers run
+// that same program — so whatever a tree builds lazily on the first call of a
+// method (tables, memos, sync.Once-less initialisers), on whichever path, is
+// built while several callers are inside it.
+func firstUse(p *plan.Plan, r *plan.Rng, nshared int) {
+	for i := range p.Shared {
+		if r.Bool() {
+			p.Shared[i] = plan.Dec{Coeff: randDigits(r, 1+r.Intn(4)), Exp: int32(r.Range(-3, 18)), Neg: r.Chance(1, 3)}
+		}
+	}
+	tk := &p.Tasks[0]
+	if len(tk.Steps) > 24 {
+		tk.Steps = tk.Steps[:24]
+	}
+	nregs := len(tk.Regs)
+	sh := func() string { return fmt.Sprintf("s%d", r.Intn(nshared)) }
+	var block []plan.Step
+	for _, op := range c18Read1 {
+		block = append(block, plan.Step{Op: op, Ctx: r.Intn(len(p.Contexts)), X: sh(), N: int64(r.Intn(64))})
+	}
+	for _, op := range c18Read2 {
+		block = append(block, plan.Step{Op: op, Ctx: r.Intn(len(p.Contexts)), X: sh(), Y: sh()})
+	}
+	for _, op := range c18Ctx2 {
+		block = append(block, plan.Step{Op: op, Ctx: r.Intn(len(p.Contexts)), D: fmt.Sprintf("r%d", r.Intn(nregs)), X: sh()})
+	}
+	for _, op := range c18Ctx3 {
+		block = append(block, plan.Step{Op: op, Ctx: r.Intn(len(p.Contexts)), D: fmt.Sprintf("r%d", r.Intn(nregs)), X: sh(), Y: sh()})
+	}
+	block = append(block, plan.Step{Op: "Quantize", Ctx: r.Intn(len(p.Contexts)), D: fmt.Sprintf("r%d", r.Intn(nregs)), X: sh(), N: int64(r.Range(-12, 6))})
+	// shuffled, so that no method is always first
+	for i := len(block) - 1; i > 0; i-- {
+		j := r.Intn(i + 1)
+		block[i], block[j] = block[j], block[i]
+	}
+	if r.Bool() {
+		tk.Steps = append(block, tk.Steps...)
+	} else {
+		tk.Steps = append(tk.Steps, block...)
+	}
+	herd(p, r.Range(3, 4))
 }
 
 // herd replaces the tasks of p by n copies of its first task (same program,
